@@ -730,3 +730,110 @@ func receiverGrowthCase(c *Ctx, index int, foreign bool) {
 		_ = wire[len(wire)-1]
 	}
 }
+
+// ---------------------------------------------------------------- C06: every run count of a run chunk
+
+// Another implementation may run-encode any chunk with any number of runs (1..32768). The library itself never
+// keeps more than 2047 runs, so counts above that exist only in foreign streams. Quick: every count 1..2200 plus
+// every count within 2 of a multiple of 1024 up to 32768; thorough: every count 1..32768.
+func runCounts(tier string) []int {
+	var out []int
+	if tier == "thorough" {
+		for n := 1; n <= 32768; n++ {
+			out = append(out, n)
+		}
+		return out
+	}
+	seen := map[int]bool{}
+	for n := 1; n <= 2200; n++ {
+		seen[n] = true
+	}
+	for k := 3; k <= 32; k++ {
+		for d := -2; d <= 2; d++ {
+			if 1024*k+d <= 32768 {
+				seen[1024*k+d] = true
+			}
+		}
+	}
+	for n := range seen {
+		out = append(out, n)
+	}
+	sort.Ints(out)
+	return out
+}
+
+func c06EveryRunCount(c *Ctx, index int) {
+	n := runCounts(c.Tier)[index]
+	r := NewRng(mix(uint64(n), seedFromEnv()+6))
+	c.R = r
+	// n runs inside one chunk: n values + (n-1) gaps are mandatory, the slack is dealt out at random
+	slack := 65536 - (2*n - 1)
+	key := genKeys(r, 1)[0]
+	m := NewISet()
+	pos := uint64(0)
+	if slack > 0 && r.Chance(0.7) {
+		d := r.Range(0, uint64(slack))
+		if r.Chance(0.5) {
+			d = r.Range(0, minU(uint64(slack), 3))
+		}
+		pos += d
+		slack -= int(d)
+	}
+	for i := 0; i < n; i++ {
+		l := uint64(0)
+		if slack > 0 && r.Chance(0.3) {
+			l = r.Range(0, minU(uint64(slack), 40))
+			slack -= int(l)
+		}
+		m.AddRange(key<<16|pos, key<<16|(pos+l))
+		pos += l + 2
+		if slack > 0 && r.Chance(0.2) {
+			g := r.Range(0, minU(uint64(slack), 40))
+			pos += g
+			slack -= int(g)
+		}
+	}
+	if i := m.NumIntervals(); i != n {
+		c.Fail("harness/run-count", "harness: built %d runs, wanted %d", i, n)
+		return
+	}
+	// neighbours: 0..5 small array chunks before / after (with >= 4 chunks the stream carries an offset header)
+	nb := r.Intn(6)
+	for j := 0; j < nb; j++ {
+		k := genKeys(r, 1)[0]
+		if k == key {
+			continue
+		}
+		m.Add(k<<16 | r.Range(0, 65535))
+	}
+	ch := encChoice{ForceRunCookie: true, RunP: 1}
+	// only the big chunk needs to be a run chunk; the others are run-encoded too (one run each), which is legal
+	wire := specEncode(r, m, ch)
+	if ds, used, _, err := specDecode(wire); err != nil || used != len(wire) || !ds.Equal(m) {
+		c.Fail("harness/codec-inconsistent", "independent encoder/decoder disagree: err=%v used=%d/%d", err, used, len(wire))
+		return
+	}
+	c.Step("foreign stream: a run chunk with exactly %d runs at key %d plus %d neighbour chunks (%d bytes)", n, key, nb, len(wire))
+	c.Distinct(uint64(n))
+	c.SetAdd("run_counts_enumerated", uint64(n))
+	if !c06CheckRead(c, wire, m, ch) {
+		return
+	}
+	// what the library makes of it must be writable again and conform in the write direction
+	c.Guard("write/after-foreign-read", func() {
+		dst := roaring.New()
+		if _, err := dst.ReadFrom(bytes.NewReader(wire)); err != nil {
+			return
+		}
+		out, err := dst.ToBytes()
+		if err != nil {
+			c.Fail("write/ToBytes-error", "%d runs: ToBytes of the decoded foreign bitmap failed: %v", n, err)
+			return
+		}
+		ds, used, _, derr := specDecode(out)
+		if derr != nil || used != len(out) || !ds.Equal(m) {
+			c.Fail("write/after-foreign-read", "%d runs: re-serialized foreign bitmap: independent decoder err=%v used=%d/%d equal=%v", n, derr, used, len(out), ds != nil && ds.Equal(m))
+		}
+		c.Eval(1)
+	})
+}
